@@ -1326,7 +1326,16 @@ impl<'a> Run<'a> {
                 st.faults.down = true;
                 st.faults.flavour = (st.rpc_count % 5) as u8;
             }
-            Op::NodeUp => self.node.lock().faults.down = false,
+            Op::NodeUp => {
+                let mut st = self.node.lock();
+                st.faults.down = false;
+                st.catch_up();
+            }
+            Op::NodeUpBehind { k } => {
+                let mut st = self.node.lock();
+                st.fall_behind(*k);
+                st.faults.down = false;
+            }
             Op::NodeUpThenDownAfter { rpcs } => {
                 let mut st = self.node.lock();
                 st.faults.down = false;
